@@ -63,7 +63,8 @@ CHECKS["C02"] = {
     "claim": ("Generated-input search over byte strings: complete single-point (and sampled/complete double-point) structural mutation sweep of a "
               "corpus of valid encodings at every node, lexical mutations (truncation / byte replacement / deletion at every offset, "
               "concatenations, deep nesting), every string of up to 3 (thorough: 4) pieces from a 24-piece alphabet of separators and escapes in each member that carries a "
-              "parsed text form (uri, node, media type, event, document URI), rapid-generated byte strings and mutations, native coverage-guided fuzzing in the thorough tier; "
+              "parsed text form (uri, node, media type, event, document URI), rapid-generated byte strings and mutations, native coverage-guided fuzzing in the thorough tier, and 8 goroutines decoding at once "
+              "(typed decoders and TCP transports) inputs whose text forms are new to the process; "
               "oracle: no panic, and whatever is accepted re-encodes and re-decodes to an equal envelope of the same kind, on the typed "
               "decoders and on the real TCP receive path; a live Server must survive the inputs."),
     "note": "Trusts encoding/json and the harness's canonical equality; inputs are sampled/enumerated, not all byte strings.",
@@ -78,6 +79,7 @@ CHECKS["C02"] = {
     "jobs": [
         {"test": "TestC02Replay", "kind": "plain"},
         {"test": "TestC02Text", "kind": "plain", "shards": (4, 12), "timeout": (300, 3000)},
+        {"test": "TestC02Concurrent", "kind": "plain", "shards": (2, 8), "timeout": (300, 3000), "gomaxprocs": [8, 16, 4, 16, 8, 16, 4, 16]},
         {"test": "TestC02Sweep", "kind": "plain", "shards": 16, "timeout": (300, 3000)},
         {"test": "TestC02Lexical", "kind": "plain", "shards": 8, "timeout": (300, 3000)},
         {"test": "TestC02Rapid", "kind": "rapid", "shards": 8, "checks": (4000, 150000)},
